@@ -8,6 +8,13 @@ fn main() {
         "C16" => hdmc::props::c16::run(&args),
         "C20" => hdmc::props::c20::run(&args),
         "C19" => hdmc::props::c19::run(&args),
+        "C02" => hdmc::poolmc::run(&args, "C02"),
+        "C03" => hdmc::poolmc::run(&args, "C03"),
+        "C04" => hdmc::poolmc::run(&args, "C04"),
+        "C05" => hdmc::poolmc::run(&args, "C05"),
+        "C06" => hdmc::poolmc::run(&args, "C06"),
+        "C14" => hdmc::poolmc::run(&args, "C14"),
+        "C15" => hdmc::poolmc::run(&args, "C15"),
         "C10" | "C11" => hdmc::props::hemc::run(&args, &args.id),
         other => {
             eprintln!("MACHINERY-ERROR unknown property {other}");
